@@ -33,11 +33,13 @@ RULE = ("histories of queries (isomorphic / get_mappings / _pre_check / boolean 
         "a positive and a negative verdict; distinct = distinct case contents")
 EXHAUSTIVE = {"quick": True, "thorough": True}
 EXPLANATION = ("Exhaustive sub-space (both tiers): all unordered pairs of iso classes <= 3 nodes over 2 elements x {absent, order 1, "
-               "order 2} (plus every class against a relabelled copy of itself), all ordered pairs <= 2 nodes with hcount {0,1}, and all "
-               "query sequences of length <= 4 (isomorphic) / 2 (isomorphic + get_mappings) over 3 graph objects x 2 engines and of length "
-               "<= 3 over 3 engines whose attribute selections are a permutation / a subset of each other; every "
-               "filter flag, induced and monomorphism mode, several attribute selections, queries issued in PRNG order on shared graph "
-               "objects.  The rest (3-node hcount pairs, random pairs <= 8 nodes, long histories; thorough: 4-node classes) is sampled.")
+               "order 2} (plus every class against a relabelled copy of itself), all ordered pairs <= 2 nodes with hcount {0,1}, all ordered "
+               "pairs of a zoo of 21 degenerate graphs (empty graph, single nodes, attributes absent on some nodes / edges only, falsy "
+               "values), and all query sequences of length <= 4 (isomorphic) / 2 (isomorphic + get_mappings) over 3 graph objects x 2 "
+               "engines and of length <= 3 over 3 engines whose attribute selections are a permutation / a subset of each other; every "
+               "filter flag, induced and monomorphism mode, every facade by keyword and positionally, several attribute selections, "
+               "queries issued in PRNG order on shared graph objects.  The rest (3-node hcount pairs, random pairs <= 8 nodes, 10-14 node "
+               "pairs, long histories, histories with in-place edits; thorough: 4-node classes) is sampled.")
 TRUSTED_BASE = [
     "Coq 8.16.1 kernel + vm_compute (no native_compute)",
     "hand-written model coq/model/C07_Model.v tied to graph_matcher.py / subgraph_matcher.py (SubgraphMatch) / graph_morphism.py by the per-run correspondence",
@@ -50,16 +52,18 @@ TRUSTED_BASE = [
 ]
 ASSUMPTIONS = ["simple undirected graphs without self-loops (gwf: distinct node ids, edges join distinct nodes, one attribute dict per unordered pair)",
                "hcount, when present, is a non-negative int",
-               "attribute values are JSON scalars compared with Python ==; with the WL filter on, selected node attributes are present "
-               "and mutually comparable (sorted() of neighbour labels)",
-               "graphs are not mutated between queries (the cache is documented to go stale otherwise)",
-               "custom node/edge comparators are not used (default operator.eq)",
+               "attribute values are JSON scalars compared with Python ==; values of one attribute are mutually comparable (absent is allowed)",
+               "graph objects are not mutated between queries of WL-FILTERING engines (the class documents that its histogram cache goes "
+               "stale otherwise); engines without the filter are covered under in-place edits (C07_edits_wl_off)",
+               "custom node/edge comparators and matcher callables are not used (default operator.eq / default matchers)",
                "get_mappings non-emptiness: max_mappings != 0"]
-TESTED_NOT_PROVED = ["networkx VF2 meets vf2b_contract / enum_contract (compared with the verified enumerator on every case)",
-                     "the single mapping returned by the equal-size shortcut of get_mappings (gm.mapping after is_isomorphic) and the "
-                     "mappings returned under max_mappings are valid embeddings: proved for the model (any element of enum), tied to the "
-                     "code by the oracle on every case and by the result count only in the correspondence (VF2 enumeration order is not modelled)",
-                     "mod/rule back-end (not installed)"]
+TESTED_NOT_PROVED = ["networkx VF2 meets vf2b_contract / enum_contract / enum_complete (compared with the verified enumerator on every case)",
+                     "WHICH mappings the equal-size shortcut (gm.mapping) and a max_mappings slice return: the theorems cover any VF2 order "
+                     "(C07_embeddings: each is valid; C07_max_mappings_slice: prefix of the unlimited result), the correspondence compares "
+                     "their count, the oracle their validity",
+                     "the mapping returned by find_graph_isomorphism is an isomorphism G1 -> G2 (oracle; the model returns the verdict)",
+                     "maximum_connected_common_subgraph / heuristics_MCCS, rule_subgraph_morphism, mod/rule back-end, DiGraph / MultiGraph "
+                     "inputs of find_graph_isomorphism: outside the property text / not installed"]
 TECHNIQUE = "Coq 8.16 proof about an executable Gallina model + per-run correspondence (vm_compute digest vs implementation) + independent brute-force property oracle"
 DESIGN_REF = "DESIGN.md section 5 C07, section 7 rows 2-5; notes/C07.md"
 LEVEL_TEXT = ("Machine-checked proof (Coq, all inputs, Closed under the global context) over an executable model of GraphMatcherEngine "
@@ -70,7 +74,9 @@ LEVEL_TEXT = ("Machine-checked proof (Coq, all inputs, Closed under the global c
               "get_mappings returns only valid pattern->host embeddings and at least one whenever the pattern is contained, any sizes; "
               "every pre-filter (node count, edge count, WL-1 histogram containment on equal orders, node-label / edge-label existence) "
               "is a necessary condition for containment, hence switching it changes no verdict and no result list; for every query "
-              "history each answer equals the fresh engine's answer (cache invariant).  VF2 enters as two explicit premises, proved for "
+              "history each answer equals the fresh engine's answer (cache invariant); find_graph_isomorphism / graph_isomorphism verdicts (fast "
+              "invariant check is necessary); unlimited get_mappings returns every embedding once, max_mappings=k its first k; histories "
+              "with in-place edits for non-filtering engines.  VF2 enters as explicit premises, proved for "
               "the verified enumerator the model run uses.  Model tied to the code by per-query comparison on exhaustive small scopes, "
               "random pairs and query histories on every run.")
 LEVEL_NOTE = ("Trusted: Coq kernel, the model, the harness encoder, the VF2 contracts (monitored, networkx is not verified). "
@@ -774,9 +780,19 @@ def gen_cases(tier, rng):
     for t in range(12 if tier == "quick" else 60):
         n = rng.randint(10, 14)
         a = _rand_graph(rng, n, hc=rng.random() < 0.5)
-        z = t % 3
-        b = _present(a, rng, extra=90) if z == 0 else _edit(_present(a, rng, extra=90), rng) if z == 1 else \
-            _present(_sub_pattern(rng, a, induced=rng.random() < 0.5), rng, extra=90)
+        z = t % 4
+        if z == 3:          # homogeneous host (all C, neutral, order 1) and a 1-3 node induced pattern: MANY embeddings
+            for _, at in a["nodes"]:
+                at.update(element="C", charge=0)
+                at.pop("hcount", None)
+            for e in a["edges"]:
+                e[2]["order"] = 1
+            keep = set(rng.sample([n_ for n_, _ in a["nodes"]], rng.randint(1, 3)))
+            b = _present({"nodes": [[n_, dict(at)] for n_, at in a["nodes"] if n_ in keep],
+                          "edges": [[u, v, dict(at)] for u, v, at in a["edges"] if u in keep and v in keep]}, rng, extra=90)
+        else:
+            b = _present(a, rng, extra=90) if z == 0 else _edit(_present(a, rng, extra=90), rng) if z == 1 else \
+                _present(_sub_pattern(rng, a, induced=True), rng, extra=90)
         es = [dict(E_FULL), dict(E_FULL, wl=True), {"na": ["charge", "element"], "ea": ["order"], "wl": True, "mm": 2}]
         cases.append(dict(kind="big", graphs=[a, b], engines=es, queries=_battery(rng, [(0, 1), (1, 0)], len(es), alt=False)))
     # ---- graph OBJECTS edited in place between queries (count-preserving and count-changing edits), results spoiled by the caller
